@@ -585,3 +585,8 @@ _add(
     m("finalize-pops-any-holder", S, "        if self._pending_jobs.get(pending_key) is job:\n            del self._pending_jobs[pending_key]", "        self._pending_jobs.pop(pending_key, None)", "C06.7"),
     m("pending-store-unguarded", S, "        if pending_job is None or (\n            job.recording_provenance() and not pending_job.recording_provenance()\n        ):\n            self._pending_jobs[pending_key] = job", "        self._pending_jobs[pending_key] = job", "C06.7"),
 )
+_add(
+    "C30",
+    m("same-path-stage-returns-unrefreshed", "redun/file.py", "            self.local.update_hash()\n            return self.local\n\n        return self.remote.copy_to(self.local)\n\n    def unstage(self) -> File:", "            return self.local\n\n        return self.remote.copy_to(self.local)\n\n    def unstage(self) -> File:", "C30.5"),
+    m("remove-keeps-cached-hash", "redun/file.py", "        self.filesystem.remove(self.path)\n        # Drop the cached hash so the next access hashes the (now missing) path.\n        self._hash = None", "        self.filesystem.remove(self.path)", "C30.5"),
+)
